@@ -181,8 +181,9 @@ Definition all_outcome (p : plat) (meth site : string) (c : cond) : res :=
 (* ------------------------------------------------------------------ the follow-up probes of the error path fail too *)
 (* Double fault: the method's native call fails with e1 AND every probe the error path then makes -- is_zombie's
    kinfo re-read (BSD, macOS; guarded by "except OSError: return False"), pid_exists (Solaris: _psposix.pid_exists ->
-   os.kill, which only absorbs ESRCH / EPERM; AIX: os.path.exists, which absorbs everything; PID 0: True without asking),
-   pids() for the PID-0 rule (cext.pids / os.listdir, unguarded) -- fails with e2.
+   os.kill(pid, 0), a system call that can only fail with ESRCH or EPERM, both absorbed; any other planned e2 is not a
+   failure of that probe, which then truthfully finds the -- listed -- PID; AIX: os.path.exists, which never raises;
+   PID 0: True without asking), pids() for the PID-0 rule (cext.pids / os.listdir, unguarded) -- fails with e2.
    [wrap_pf p e e2 z]: the decorator catching OSError e; RRaw = it re-raises what it caught. *)
 Definition wrap_pf (p : plat) (e e2 : err) (z : bool) : res :=
   match p with
@@ -197,10 +198,9 @@ Definition wrap_pf (p : plat) (e e2 : err) (z : bool) : res :=
       match pycls_of e with
       | CLookup | CNotFound =>
           if z then RZombie                              (* pid_exists(0) is True without a probe *)
-          else match pycls_of e2 with
-               | CLookup => RNoSuch                      (* os.kill -> ESRCH -> False *)
-               | CPerm => RZombie                        (* os.kill -> EPERM -> True *)
-               | _ => RRawProbe                          (* any other error of os.kill leaves pid_exists() *)
+          else match e2 with
+               | ESRCH => RNoSuch                        (* os.kill -> ESRCH -> False *)
+               | _ => RZombie                            (* os.kill -> EPERM -> True; no other failure exists: the PID is found *)
                end
       | CPerm => RDenied
       | COSError => if z then RRawProbe else RRaw
@@ -227,7 +227,7 @@ Definition probe_outcome (p : plat) (meth site : string) (e1 e2 : err) (z : bool
   | Windows => method_outcome p meth site c1
   | NetBSD =>
       if g_netbsd_cmdline meth site && is_einval e1 then
-        (if z then RVal else match pycls_of e2 with CPerm => RVal | _ => retrans NetBSD e2 z end)
+        (if z then RVal else match e2 with ESRCH => retrans NetBSD e2 z | _ => RVal end)   (* kill: ESRCH / EPERM / found *)
       else if g_netbsd_exe meth site then
         match wrap_procfs c1 with Some RZombie => RNoSuch | Some r => r | None => wrap_pf p e1 e2 z end
       else if g_nested p meth site then nested_pf p e1 e2 z else wrap_pf p e1 e2 z
